@@ -25,6 +25,10 @@ S s1; S s2; S2 t1; S3 u1;
 int ia[3]; int ib[3]; int ic[4]; bool ba[3]; double da[3];
 chan ch; chan ch2; broadcast chan bc; urgent chan uc;
 const double PI = 3.14;
+const int cv = 3; const int[0,5] cbi = 2; const int cia[3] = { 1, 2, 3 }; const bool cba[3] = { true, false, true };
+const double cd = 2.5; const S cs1 = { 1, 2 }; typedef int[0,5] small_t; small_t tv; small_t tva[3]; int[0,5] bia[3]; meta int mi;
+int m2[2][3]; const int cm2[2][3] = { { 1, 2, 3 }, { 4, 5, 6 } }; S sarr[2]; const S csarr[2] = { { 1, 2 }, { 3, 4 } };
+void setint(int &r) { r = 1; } void setbint(int[0,5] &r) { r = 1; } void setdbl(double &r) { r = 1.0; }
 int fi() { return 1; }
 double fd() { return 1.5; }
 bool fb() { return true; }
@@ -33,6 +37,7 @@ S fs_() { return s1; }
 DECL = DECL.replace("S fs_() { return s1; }\n", "")
 POOL = ["1", "0", "i", "i + j", "bi", "bj", "N", "-i", "true", "b", "b && c", "i < j", "1.5", "d", "d * e", "PI", "x", "y", "hx", "x - y",
         "x - 3", "sa1", "sa2", "sb1", "s1", "s2", "t1", "u1", "s1.f", "ia", "ib", "ic", "ba", "da", "ia[1]", "ch", "ch2", "bc", "uc",
+        "cv", "cbi", "cia", "cba", "cd", "cs1", "tv", "tva", "bia", "mi", "m2", "cm2", "sarr", "csarr", "cia[1]", "cs1.f", "m2[1]", "cm2[1]",
         "fi()", "fd()", "fb()", "(b ? i : j)", "(b ? d : e)", "i++", "forall (q : int[0,1]) ia[q] > 0", "sum (q : int[0,1]) ia[q]"]
 OPS = ["+", "*", "==", "!=", "&&", "||", "&", "|", "^", "<?", ">?", "and", "or"]
 
@@ -86,6 +91,35 @@ def run(rep, tier, seed):
                 (r1.get("tc_err0") or r1.get("err0") or r2.get("tc_err0") or r2.get("err0"))), single)
         elif ok1 and t1 != t2:
             rep.violation("C14:type-asymmetric:%s" % what, "%r has type kind %s but %r has %s" % (texts[2 * k], t1, texts[2 * k + 1], t2), single)
+    # ---- inline-if as an l-value: assignment target and argument for a reference parameter
+    lv_int = ["i", "j", "cv", "ia[0]", "cia[0]", "s1.f", "cs1.f", "mi", "m2[1][0]", "cm2[1][0]", "sarr[1].k", "csarr[1].k"]
+    lv_bint = ["bi", "cbi", "tv", "bia[1]", "tva[0]"]
+    lv_dbl = ["d", "e", "cd", "da[0]", "u1.f"]
+    ltexts, lpairs = [], []
+    for pool, lit, setter in ((lv_int, "1", "setint"), (lv_bint, "1", "setbint"), (lv_dbl, "1.5", "setdbl")):
+        for a, b_ in itertools.product(pool, pool):
+            for form in ("(%s) = " + lit, "(%s) += " + lit, "(%s)++", setter + "(%s)", "j = (%s)"):
+                if form.endswith("++") and pool is lv_dbl or "+=" in form and pool is lv_dbl:
+                    continue
+                lpairs.append(("inline-if-lvalue:" + form.replace("%s", "X").replace(lit, "L"), a, b_))
+                ltexts.append(form % ("b ? %s : %s" % (a, b_)))
+                ltexts.append(form % ("!b ? %s : %s" % (b_, a)))
+    lres = exprlab.run_exprs(ltexts, model, flags="t", batch=80, tag="c14l")
+    for k, (what, a, b_) in enumerate(lpairs):
+        r1, c1, x1 = lres[2 * k]
+        r2, c2, x2 = lres[2 * k + 1]
+        if x1 is not None or x2 is not None:
+            rep.crash(x1 or x2, c1 if x1 else c2)
+            continue
+        ok1 = not r1.get("nerr") and not r1.get("nerr_tc") and r1.get("exc") is None and r1.get("tc_exc") is None
+        ok2 = not r2.get("nerr") and not r2.get("nerr_tc") and r2.get("exc") is None and r2.get("tc_exc") is None
+        rep.observe((what, a, b_))
+        if ok1 != ok2:
+            from ..runner import Case, Step
+            single = Case("replay", [c1.steps[0], Step("exprs", 0, "global", 1, "S_EXPRESSION", "t", ltexts[2 * k], ltexts[2 * k + 1])])
+            rep.violation("C14:acceptance-asymmetric:%s" % what, "%r is %s but %r is %s (%s)" % (
+                ltexts[2 * k], "accepted" if ok1 else "rejected", ltexts[2 * k + 1], "accepted" if ok2 else "rejected",
+                (r1.get("tc_err0") or r1.get("err0") or r2.get("tc_err0") or r2.get("err0"))), single)
     # ---- reference parameters: function calls
     names = sorted(REF_TYPES)
     decl = DECL + "".join("%s v_%s%s;\n" % (REF_TYPES[n][0], n, REF_TYPES[n][1]) for n in names)
